@@ -19,6 +19,7 @@ import GrcVerif.Version
 import GrcVerif.FeatModel
 import GrcVerif.Cmap
 import GrcVerif.LineMap
+import GrcVerif.StaticRules
 namespace Grc.Driver
 
 structure State where
@@ -620,6 +621,15 @@ def cmdLineMap (path token : String) : IO (List String) := do
       return [s!"ok ppline={p} spec={specFile}({spec}) model={rep.1}({rep.2})"]
   catch e => return [s!"error io: {e}"]
 
+/-- C10: static-rule violations of every rule of the IR (declarative specification). -/
+def cmdC10 (st : State) : List String := Id.run do
+  let mut out : List String := []
+  for pj in st.ir.passes do
+    for (r, ri) in pj.rules.zipIdx do
+      let v := SR.ruleViolations pj.table r
+      if !v.isEmpty then out := out ++ [s!"violation pass {pj.index} rule {ri} line {r.line}: " ++ " ; ".intercalate v]
+  out ++ [s!"ok violations={out.length}", "done"]
+
 def step (st : State) (toks : List String) : IO (State × List String) := do
   match toks with
   | [] => return (st, [])
@@ -719,6 +729,7 @@ def step (st : State) (toks : List String) : IO (State × List String) := do
     let (st', ls) := cmdExpand st
     return (st', ls)
   | ["linemap", path, token] => return (st, ← cmdLineMap path token)
+  | ["c10"] => return (st, cmdC10 st)
   | ["c06"] =>
     match cmdC06 st with
     | .ok ls => return (st, ls)
